@@ -85,4 +85,26 @@ theorem graph_path_valid (s : Scene) (hwf : ∀ R ∈ s.rects, R.x0 < R.x1 ∧ R
     · exact Or.inl h'.symm
     · exact Or.inr h'.symm
 
+-- non-vacuity of `graph_edge_unblocked` / `graph_path_valid`: `demoScene2` (box of positive size, both end points in
+-- free space, graph not empty); the route (6,3) → (4,3) → (4,5) walks one edge backwards and one forwards
+example : RouteValid (demoScene2.rects.map polyOf) [] ⟨6, 3⟩ ⟨4, 5⟩ [⟨6, 3⟩, ⟨4, 3⟩, ⟨4, 5⟩] ∧
+    routeOrthogonal [⟨6, 3⟩, ⟨4, 3⟩, ⟨4, 5⟩] = true :=
+  graph_path_valid demoScene2 (by decide +kernel)
+    (by intro R hR h; rw [← hasConnIn_iff] at h; revert R; decide +kernel)
+    ⟨6, 3⟩ ⟨4, 5⟩ [⟨6, 3⟩, ⟨4, 3⟩, ⟨4, 5⟩] (by decide) rfl rfl
+    (by
+      intro l hl
+      have e : legs [(⟨6, 3⟩ : Pt), ⟨4, 3⟩, ⟨4, 5⟩] = [(⟨6, 3⟩, ⟨4, 3⟩), (⟨4, 3⟩, ⟨4, 5⟩)] := rfl
+      rw [e] at hl
+      simp only [List.mem_cons, List.not_mem_nil, or_false] at hl
+      rcases hl with rfl | rfl
+      · exact Or.inr (List.mem_of_find?_eq_some
+          (by decide +kernel : (graphPts demoScene2).find? (fun l => decide (l = (⟨4, 3⟩, ⟨6, 3⟩))) = some (⟨4, 3⟩, ⟨6, 3⟩)))
+      · exact Or.inl (List.mem_of_find?_eq_some
+          (by decide +kernel : (graphPts demoScene2).find? (fun l => decide (l = (⟨4, 3⟩, ⟨4, 5⟩))) = some (⟨4, 3⟩, ⟨4, 5⟩))))
+example : ∀ l ∈ graphPts demoScene2, Unblocked (demoScene2.rects.map polyOf) [] l.1 l.2 :=
+  graph_edge_unblocked demoScene2 (by decide +kernel)
+    (by intro R hR h; rw [← hasConnIn_iff] at h; revert R; decide +kernel)
+#guard !(graphPts demoScene2).isEmpty
+
 end AdaptaVerif.Props.C05OrthVis
